@@ -109,6 +109,14 @@ func c18AreaTol(triangles int, area float64) float64 {
 	return 2*c18TriErr*float64(triangles) + 1e-12*area + 1e-15
 }
 
+// c18SmallTol: Loop.Area / PointArea promise good *relative* accuracy for small loops (l'Huilier);
+// for a loop of well-shaped cells the tolerance is the smaller of the absolute bound and 1e-9 relative.
+// The vertex coordinates themselves carry an absolute rounding of ~1e-16, i.e. a relative error of
+// 1e-16/edge in every side length, hence the 1e-14/edge term.
+func c18SmallTol(triangles int, area, minEdge float64) float64 {
+	return math.Min(c18AreaTol(triangles, area), (1e-12+1e-14/minEdge)*area+1e-300)
+}
+
 // turningAngleMaxError: 11.25 * dblEpsilon per vertex
 func c18TurnErr(n int) float64 { return 11.25 * 2.220446049250313e-16 * float64(n) }
 
@@ -331,7 +339,7 @@ func opC18W2(raw json.RawMessage, o *Out) {
 		if all {
 			name = "loop/w2" + deep
 		}
-		tol := c18AreaTol(2*len(vs)+2*ncell, exp)
+		tol := c18SmallTol(2*len(vs)+2*ncell, exp, float64(c18GridPoint(c.F, c.G, c.A[0], c.A[1]).Distance(c18GridPoint(c.F, c.G, c.A[0]+1, c.A[1]))))
 		c18Turn(rec, vs, name, desc, rnd)
 		c18Area(rec, vs, name, desc, exp, tol, [][]int{shell}, nil, false)
 		c18Area(rec, c18Rev(vs), name+"/reversed", desc+" reversed", 4*math.Pi-exp, tol, [][]int{shell}, nil, true)
@@ -369,10 +377,11 @@ func opC18W2(raw json.RawMessage, o *Out) {
 	}
 	// polygons: shell minus hole, nested and oriented construction; with an island inside the hole
 	for _, h := range c.Holes {
-		for variant := 0; variant < 4; variant++ {
+		for variant := 0; variant < 6; variant++ {
 			oriented := variant&1 == 1
-			island := variant&2 == 2
-			if island && c.G+2 > 30 {
+			island := variant >= 2
+			lake := variant >= 4 // a hole inside the island (depth 3)
+			if (island && c.G+2 > 30) || (lake && c.G+4 > 30) {
 				continue
 			}
 			sub, ok := rec.next()
@@ -394,8 +403,18 @@ func opC18W2(raw json.RawMessage, o *Out) {
 			} else {
 				loops = append(loops, s2.LoopFromPoints(hv))
 			}
+			lk := []int{16*h[0] + 7, 16*h[1] + 7, 2, 2}
 			if island {
 				loops = append(loops, s2.LoopFromPoints(c18RectVerts(c.F, c.G+2, isl, true)))
+			}
+			if lake {
+				cls = "polygon/w2-hole-island-lake" + deep
+				if oriented {
+					cls += "/oriented"
+					loops = append(loops, s2.LoopFromPoints(c18Rev(c18RectVerts(c.F, c.G+4, lk, true))))
+				} else {
+					loops = append(loops, s2.LoopFromPoints(c18RectVerts(c.F, c.G+4, lk, true)))
+				}
 			}
 			var pg *s2.Polygon
 			if oriented {
@@ -407,6 +426,10 @@ func opC18W2(raw json.RawMessage, o *Out) {
 			if island {
 				ia, ic, in := c18Cells(c.F, c.G+2, isl, nil)
 				pexp, cexp, pn = pexp+ia, cexp.Add(ic), pn+in
+			}
+			if lake {
+				la, lc, ln := c18Cells(c.F, c.G+4, lk, nil)
+				pexp, cexp, pn = pexp-la, cexp.Sub(lc), pn+ln
 			}
 			ptol := c18AreaTol(2*pg.NumEdges()+2*pn+2*h[2]*h[3], exp)
 			var ssum float64
